@@ -128,6 +128,9 @@ func (e *Engine) call(fv Value, args []Value) Value {
 	if name, ok := isIntrinsic(fn); ok {
 		return e.intrinsic(name, fn, args)
 	}
+	if fn.Name() == "init" && fn.Synthetic != "" && len(args) == 0 {
+		return nil // dependencies' package initialisers: globals are initialised lazily per package
+	}
 	if r, ok := e.stub(fn, args); ok {
 		return r
 	}
@@ -726,6 +729,18 @@ func (e *Engine) global(g *ssa.Global) *Object {
 	o.Lazy = false
 	o.ID = 0 // globals pre-exist every operation
 	e.globals[g] = o
+	// run the package initialiser (variable initialisers) of repository packages on first use
+	if p := g.Pkg; p != nil && !e.inited[p] && strings.HasPrefix(p.Pkg.Path(), "github.com/emirpasic/gods") {
+		e.inited[p] = true
+		if init := p.Func("init"); init != nil && init.Blocks != nil {
+			saveScope, saveRO, saveFn := e.scope, e.readonly, e.curFn
+			e.scope, e.readonly = "init."+p.Pkg.Name(), false
+			e.forcing++
+			e.run(init, nil, nil)
+			e.forcing--
+			e.scope, e.readonly, e.curFn = saveScope, saveRO, saveFn
+		}
+	}
 	return o
 }
 
